@@ -213,23 +213,68 @@ def main():
                         ctypes.c_ubyte.from_address(base + i).value = before[i]
     sim.integrator = "ias15"; sim.gravity = "basic"; sim.collision = "none"; sim.boundary = "none"
 
-    cbs = [(lambda: sim, "collision_resolve", ["collision_resolve"], {"merge": "reb_collision_resolve_merge", "hardsphere": "reb_collision_resolve_hardsphere", "halt": "reb_collision_resolve_halt"}),
-           (lambda: sim.ri_mercurius, "L", ["ri_mercurius", "L"], {"mercury": "reb_integrator_mercurius_L_mercury", "C4": "reb_integrator_mercurius_L_C4", "C5": "reb_integrator_mercurius_L_C5", "infinity": "reb_integrator_mercurius_L_infinity"}),
-           (lambda: sim.ri_trace, "S", ["ri_trace", "S"], {"default": "reb_integrator_trace_switch_default"}),
-           (lambda: sim.ri_trace, "S_peri", ["ri_trace", "S_peri"], {"default": "reb_integrator_trace_switch_peri_default", "none": "reb_integrator_trace_switch_peri_none"})]
-    for objf, prop, path, names in cbs:
-        off = path_off("reb_simulation", path)
-        for nm, sym in names.items():
-            out["checked"]["callbacks"] += 1
-            try:
-                setattr(objf(), prop, nm)
+    # named built-in callbacks (setter branches  if value == "name": ... clibrebound.symbol, regenerated from the sources):
+    # setting the name stores the address of that exported function in the C member
+    holder = {"Simulation": (lambda: sim, []), "IntegratorMercurius": (lambda: sim.ri_mercurius, ["ri_mercurius"]),
+              "IntegratorTRACE": (lambda: sim.ri_trace, ["ri_trace"])}
+    for cls_, prop, nm, syms in job["named_callbacks"]:
+        out["checked"]["callbacks"] += 1
+        pre_ = [r[2] for r in job["named_prefixes"] if r[0] == cls_ and r[1] == prop]
+        syms = [pre_[0] + nm] if pre_ else []          # the function the NAME denotes (naming rule), not what the setter code says
+        if cls_ not in holder or len(syms) != 1:
+            out["mismatch"].append({"what": "callback-unprobed", "struct": prop, "member": nm, "detail": "class %s, symbols %s" % (cls_, syms)}); continue
+        objf, pre = holder[cls_]
+        cmem = [cm for c2, cs2, pf, cm in job["name_pairs"] if c2 == cls_ and pf == "_" + prop]
+        off = path_off("reb_simulation", pre + cmem[:1]) if cmem else None
+        try:
+            ctypes.c_void_p.from_address(base + off).value = None
+            setattr(objf(), prop, nm)
+            rawp = ctypes.c_void_p.from_address(base + off).value
+            want = ctypes.cast(getattr(clib, syms[0]), ctypes.c_void_p).value
+        except Exception as e:
+            out["mismatch"].append({"what": "callback-set-raised", "struct": prop, "member": nm, "detail": repr(e)}); continue
+        if rawp != want:
+            out["mismatch"].append({"what": "callback-pointer", "struct": prop, "member": nm,
+                                    "detail": "%s = %r stores %r in reb_simulation.%s; &%s = %r" % (prop, nm, rawp, ".".join(pre + cmem[:1]), syms[0], want)})
+
+    # documented option strings (docs/*.md): each is accepted by the real setter; where the docs pair it with a C constant /
+    # C function, the raw C member then holds gcc's value of that constant / the address of that function
+    out["checked"]["documented"] = 0
+    drules = {r[0]: r for r in job["doc_rules"]}
+    paired = {}
+    for fn_, path, citem, s_ in job["doc_pairs"]:
+        paired.setdefault((path, s_), []).append(citem)
+    for fn_, path, s_ in job["doc_py"]:
+        out["checked"]["documented"] += 1
+        if path not in drules:
+            out["mismatch"].append({"what": "doc-unknown-path", "struct": path, "member": s_, "detail": "docs/%s" % fn_}); continue
+        parts = path.split(".")
+        cpath = parts[:-1] + [cm for c2, cs2, pf, cm in job["name_pairs"] if c2 == drules[path][1] and pf == "_" + parts[-1]][:1]
+        off = path_off("reb_simulation", cpath)
+        try:
+            o = sim
+            for a in parts[:-1]: o = getattr(o, a)
+            ctypes.c_ulonglong.from_address(base + off).value = 0x5A5A5A5A if drules[path][3] else 0
+            setattr(o, parts[-1], s_)
+        except Exception as e:
+            out["mismatch"].append({"what": "doc-option-rejected", "struct": path, "member": s_,
+                                    "detail": "docs/%s documents sim.%s = %r; the setter raised %r" % (fn_, path, s_, e)}); continue
+        for citem in paired.get((path, s_), []):
+            if drules[path][3]:
+                rawv = ctypes.c_int.from_address(base + off).value
+                if citem in job["enum"] and rawv != job["enum"][citem]:
+                    out["mismatch"].append({"what": "doc-option-value", "struct": path, "member": s_,
+                                            "detail": "docs/%s pairs sim.%s = %r with %s (= %d); the C member holds %d" % (fn_, path, s_, citem, job["enum"][citem], rawv)})
+            else:
                 rawp = ctypes.c_void_p.from_address(base + off).value
-                want = ctypes.cast(getattr(clib, sym), ctypes.c_void_p).value
-            except Exception as e:
-                out["mismatch"].append({"what": "callback-set-raised", "struct": prop, "member": nm, "detail": repr(e)}); continue
-            if rawp != want:
-                out["mismatch"].append({"what": "callback-pointer", "struct": prop, "member": nm,
-                                        "detail": "%s = %r stores %r in reb_simulation.%s; &%s = %r" % (prop, nm, rawp, ".".join(path), sym, want)})
+                try:
+                    want = ctypes.cast(getattr(clib, citem), ctypes.c_void_p).value
+                except AttributeError:
+                    want = None
+                if rawp != want:
+                    out["mismatch"].append({"what": "doc-callback-pointer", "struct": path, "member": s_,
+                                            "detail": "docs/%s pairs sim.%s = %r with %s (%r); the C member holds %r" % (fn_, path, s_, citem, want, rawp)})
+    sim.integrator = "ias15"; sim.gravity = "basic"; sim.collision = "none"; sim.boundary = "none"
 
     # offsets the LIBRARY itself was compiled with (reb_binary_field_descriptor_list) vs gcc on the current header
     try:
@@ -283,13 +328,15 @@ def main():
         elif name == "k3-second":
             a = s_.add_variation(); b = s_.add_variation()
             objs += [a, b, s_.add_variation(order=2, first_order=a, first_order_2=b)]
+        elif name == "k3-testparticles":
+            objs += [s_.add_variation(testparticle=0), s_.add_variation(testparticle=1), s_.add_variation(testparticle=2)]
         elif name == "k4-mixed":
             a = s_.add_variation(); t = s_.add_variation(testparticle=2); b = s_.add_variation()
             objs += [a, t, b, s_.add_variation(order=2, first_order=a, first_order_2=b)]
         return s_, objs
 
     if vstride is not None:
-        for sc in ("k1", "k2-megno", "k3-second", "k4-mixed"):
+        for sc in ("k1", "k2-megno", "k3-second", "k3-testparticles", "k4-mixed"):
             try:
                 s_, objs = scenario(sc)
             except Exception as e:
@@ -408,6 +455,453 @@ def main():
         except Exception as e:
             bad("Particles", "__getitem__", "particle container probe raised %r" % (e,))
 
+
+    # ---- 6. sim.particles container: __len__/__getitem__ (int, negative, slices)/__iter__/__setitem__/Particle.index with
+    #         variational particles present, against the raw C array
+    try:
+        if vstride is None:
+            raise KeyError("no C layout")
+        s_ = mk()
+        s_.add(m=3e-3, a=4.1, e=0.02, hash="outer")
+        s_.add_variation(); s_.add_variation(testparticle=3)
+        b_ = ctypes.addressof(s_)
+        N = ctypes.c_uint.from_address(b_ + off_N).value
+        Nvar = ctypes.c_int.from_address(b_ + co["reb_simulation"]["N_var"][0]).value
+        pbase = ctypes.c_void_p.from_address(b_ + off_pp).value
+        parr = lambda: ctypes.string_at(pbase, N * pstride)
+        addr = lambda i: pbase + i * pstride
+        out["checked"]["indexed"] += 1
+        if len(s_.particles) != N or s_.N != N or s_.N_var != Nvar or s_.N_real != N - Nvar or N != 9 or Nvar != 5:
+            bad("Particles", "__len__", "len(sim.particles)=%d sim.N=%d N_var=%d N_real=%d; C N=%d N_var=%d (expected 9, 5)" % (len(s_.particles), s_.N, s_.N_var, s_.N_real, N, Nvar))
+        for i in range(-N, N):
+            out["checked"]["indexed"] += 1
+            try:
+                a_ = ctypes.addressof(s_.particles[i])
+            except Exception as e:
+                bad("Particles", "__getitem__", "sim.particles[%d] with N=%d (N_var=%d) raised %r" % (i, N, Nvar, e)); continue
+            if a_ != addr(i % N):
+                bad("Particles", "__getitem__", "sim.particles[%d] is at %#x, C particles[%d] at %#x" % (i, a_, i % N, addr(i % N)))
+            if i >= 0 and s_.particles[i].index != i:
+                bad("Particle", "index", "sim.particles[%d].index = %d" % (i, s_.particles[i].index))
+        for i in (N, N + 3, -N - 1):
+            out["checked"]["indexed"] += 1
+            try:
+                s_.particles[i]
+                bad("Particles", "__getitem__", "sim.particles[%d] with N=%d did not raise" % (i, N))
+            except (AttributeError, IndexError):
+                pass
+        for sl in (slice(None), slice(1, 3), slice(N - Nvar, None), slice(None, None, -1), slice(-3, None), slice(0, N, 2), slice(2, 100), slice(-100, 2)):
+            out["checked"]["indexed"] += 1
+            got = [ctypes.addressof(q) for q in s_.particles[sl]]
+            want = [addr(i) for i in range(N)[sl]]
+            if got != want:
+                bad("Particles", "__getitem__", "sim.particles[%r] yields elements %s, expected %s" % (sl, [(g - pbase) // pstride for g in got], list(range(N)[sl])))
+        out["checked"]["indexed"] += 1
+        if [ctypes.addressof(q) for q in s_.particles] != [addr(i) for i in range(N)]:
+            bad("Particles", "__iter__", "iteration does not visit C particles[0..%d) in order" % N)
+        serial = 0
+        for key, i in ((0, 0), (2, 2), (-1, N - 1), (-N, 0), (N - Nvar, N - Nvar), ("outer", 3), (ctypes.c_uint32(clib.reb_hash(b"outer")), 3)):
+            out["checked"]["indexed"] += 1
+            serial += 1
+            q = rebound.Particle(m=0.5 + serial / 64., x=10. + serial, y=-2., vz=0.25 * serial)
+            if i == 3:
+                q.hash = "outer"          # keep the hash so that the later lookups still find it
+            p0 = parr()
+            s_.particles[key] = q
+            p1 = parr()
+            ch = [c for c in diff_ranges(p0, p1) if not (i * pstride <= c < (i + 1) * pstride)]
+            el = p1[i * pstride:(i + 1) * pstride]
+            src = ctypes.string_at(ctypes.addressof(q), pstride)
+            simp = ctypes.c_void_p.from_address(addr(i) + co["reb_particle"]["sim"][0]).value
+            if ch or el != src or simp != b_:
+                bad("Particles", "__setitem__", "sim.particles[%r] = Particle(x=%r): element %d equals the value: %s; bytes of other elements changed: %s; C particles[%d].sim == &sim: %s" % (getattr(key, "value", key), q.x, i, el == src, ch[:6], i, simp == b_))
+    except Exception as e:
+        bad("Particles", "__getitem__", "container probe raised %r" % (e,))
+
+    # ---- 7. Simulationarchive: len / sa[i] / sa[-1] / slices / iteration / t, tmin, tmax / getSimulation index math against
+    #         the C index arrays (struct reb_simulationarchive members read at the gcc offsets)
+    out["checked"]["archive"] = 0
+    try:
+        import os, math, warnings
+        sa_co = co["reb_simulationarchive"]
+        fn = os.path.join(job["tmpdir"], "c18_probe_%d.bin" % os.getpid())
+        if os.path.exists(fn): os.remove(fn)
+        s_ = mk(); s_.integrator = "whfast"; s_.dt = 0.013
+        saved = []
+        for tt in (0.0, 0.4, 0.9, 2.5, 2.6, 7.0, 7.3):
+            s_.integrate(tt, exact_finish_time=0)
+            s_.save_to_file(fn)
+            saved.append((s_.t, s_.particles[1].x, s_.particles[2].vy))
+        n = len(saved)
+        fsize = os.path.getsize(fn)
+
+        def bada(member, detail):
+            out["mismatch"].append({"what": "archive-accessor", "struct": "Simulationarchive", "member": member, "detail": detail})
+        with warnings.catch_warnings():
+            warnings.simplefilter("ignore")
+            sa = rebound.Simulationarchive(fn)
+            ab = ctypes.addressof(sa)
+            nb = ctypes.c_int64.from_address(ab + sa_co["nblobs"][0]).value
+            tp = ctypes.c_void_p.from_address(ab + sa_co["t"][0]).value
+            op = ctypes.c_void_p.from_address(ab + sa_co["offset"][0]).value
+            ct = [ctypes.c_double.from_address(tp + 8 * i).value for i in range(nb)]
+            coffs = [ctypes.c_uint64.from_address(op + 8 * i).value for i in range(nb)]
+            out["checked"]["archive"] += 1
+            if not (nb == n == len(sa) == sa.nblobs):
+                bada("nblobs", "saved %d snapshots; C nblobs=%d len(sa)=%d sa.nblobs=%d" % (n, nb, len(sa), sa.nblobs))
+            if ct != [x[0] for x in saved]:
+                bada("t", "C index t[] = %r, snapshots were saved at %r" % (ct, [x[0] for x in saved]))
+            if any(not (0 <= coffs[i] < fsize) for i in range(nb)) or any(coffs[i] >= coffs[i + 1] for i in range(nb - 1)):
+                bada("offset", "C offset[] = %r not increasing inside the %d-byte file" % (coffs, fsize))
+            for i in range(nb):
+                out["checked"]["archive"] += 1
+                if sa.t[i] != ct[i] or sa.offset[i] != coffs[i]:
+                    bada("t", "sa.t[%d]=%r sa.offset[%d]=%r; C holds %r, %r" % (i, sa.t[i], i, sa.offset[i], ct[i], coffs[i]))
+            out["checked"]["archive"] += 1
+            if sa.tmin != ct[0] or sa.tmax != ct[nb - 1]:
+                bada("tmax", "sa.tmin=%r sa.tmax=%r; C t[0]=%r t[nblobs-1]=%r" % (sa.tmin, sa.tmax, ct[0], ct[nb - 1]))
+            for m_, ty in (("version", ctypes.c_int), ("auto_interval", ctypes.c_double), ("auto_walltime", ctypes.c_double), ("auto_step", ctypes.c_uint64)):
+                out["checked"]["archive"] += 1
+                if getattr(sa, m_) != ty.from_address(ab + sa_co[m_][0]).value:
+                    bada(m_, "sa.%s=%r, C holds %r" % (m_, getattr(sa, m_), ty.from_address(ab + sa_co[m_][0]).value))
+
+            def same(sim_, i, how):
+                g = (sim_.t, sim_.particles[1].x, sim_.particles[2].vy)
+                if g != saved[i]:
+                    bada("__getitem__", "%s returned the snapshot with (t, x1, vy2)=%r, snapshot %d is %r" % (how, g, i, saved[i]))
+            for i in range(-nb, nb):
+                out["checked"]["archive"] += 1
+                try:
+                    same(sa[i], i % nb, "sa[%d]" % i)
+                except Exception as e:
+                    bada("__getitem__", "sa[%d] with %d snapshots raised %r" % (i, nb, e))
+            for i in (nb, nb + 2, -nb - 1):
+                out["checked"]["archive"] += 1
+                try:
+                    sa[i]; bada("__getitem__", "sa[%d] with %d snapshots did not raise" % (i, nb))
+                except IndexError:
+                    pass
+            for sl in (slice(None), slice(1, 3), slice(None, None, -1)):
+                out["checked"]["archive"] += 1
+                try:
+                    r_ = sa[sl]
+                    if [x.t for x in r_] != ct[sl]:
+                        bada("__getitem__", "sa[%r] returned times %r, expected %r" % (sl, [x.t for x in r_], ct[sl]))
+                except AttributeError:
+                    pass           # documented: slicing is not supported
+            out["checked"]["archive"] += 1
+            it = [x.t for x in sa]
+            if it != ct:
+                bada("__iter__", "iteration yields times %r, C index has %r" % (it, ct))
+            # index math of getSimulation: the snapshot used is the last one with t[j] <= t
+            probes = list(ct) + [(ct[i] + ct[i + 1]) / 2 for i in range(nb - 1)] + [math.nextafter(x, -math.inf) for x in ct[1:]] + [math.nextafter(x, math.inf) for x in ct[:-1]]
+            for tq in probes:
+                out["checked"]["archive"] += 1
+                j = max(i for i in range(nb) if ct[i] <= tq)
+                try:
+                    bi, bt = sa._getSnapshotIndex(tq)
+                    if bi != j or bt != ct[j]:
+                        bada("getSimulation", "_getSnapshotIndex(%r) = (%d, %r); last snapshot with t<=%r is %d (t=%r)" % (tq, bi, bt, tq, j, ct[j]))
+                    same(sa.getSimulation(tq), j, "getSimulation(%r)" % tq)
+                    se = sa.getSimulation(tq, mode="exact")
+                    # (landing on t to the last bit is C08's contract; here only the index math matters: allow a few ulps)
+                    if abs(se.t - tq) > 4 * math.ulp(max(abs(tq), 1e-300)):
+                        bada("getSimulation", "getSimulation(%r, mode='exact').t = %r" % (tq, se.t))
+                    sc_ = sa.getSimulation(tq, mode="close")
+                    if not (tq <= sc_.t < tq + 2 * 0.013 + 1e-12) and sc_.t != ct[j]:
+                        bada("getSimulation", "getSimulation(%r, mode='close').t = %r" % (tq, sc_.t))
+                except Exception as e:
+                    bada("getSimulation", "getSimulation(%r) raised %r" % (tq, e))
+            for tq in (math.nextafter(ct[0], -math.inf), math.nextafter(ct[-1], math.inf), ct[-1] + 5):
+                out["checked"]["archive"] += 1
+                try:
+                    sa.getSimulation(tq); bada("getSimulation", "getSimulation(%r) outside [%r, %r] did not raise" % (tq, ct[0], ct[-1]))
+                except ValueError:
+                    pass
+            for op_ in ("set", "del"):
+                out["checked"]["archive"] += 1
+                try:
+                    if op_ == "set": sa[0] = mk()
+                    else: del sa[0]
+                    bada("__setitem__", "archive accepted %s" % op_)
+                except AttributeError:
+                    pass
+            # second archive sharing the index of the first
+            sa2 = rebound.Simulationarchive(fn, reuse_index=sa)
+            ab2 = ctypes.addressof(sa2)
+            nb2 = ctypes.c_int64.from_address(ab2 + sa_co["nblobs"][0]).value
+            tp2 = ctypes.c_void_p.from_address(ab2 + sa_co["t"][0]).value
+            out["checked"]["archive"] += 1
+            if nb2 != nb or [ctypes.c_double.from_address(tp2 + 8 * i).value for i in range(nb2)] != ct or sa2.tmax != ct[-1] or sa2[-1].t != ct[-1]:
+                bada("reuse_index", "archive opened with reuse_index disagrees with the index of the first")
+            del sa2, sa
+        os.remove(fn)
+    except Exception as e:
+        import traceback
+        out["mismatch"].append({"what": "archive-accessor", "struct": "Simulationarchive", "member": "probe", "detail": "archive probe raised %r %s" % (e, traceback.format_exc()[-300:])})
+
+    # ---- 8. callbacks: every python-settable callback is (a) invoked the way C would invoke it -- through the raw pointer
+    #         found at the C member's offset, with the prototype the HEADER declares, structs by value built byte by byte
+    #         in the C layout -- and the python callable must receive exactly those arguments; (b) triggered once by the
+    #         library itself (step / collision / ODE / remove) with checks on what it receives
+    out["checked"]["callback_args"] = 0
+    try:
+        CT = job["ctypes"]
+        PRIM = {"int": ctypes.c_int, "unsigned int": ctypes.c_uint, "long": ctypes.c_long, "unsigned long": ctypes.c_ulong,
+                "double": ctypes.c_double, "float": ctypes.c_float, "char": ctypes.c_char, "short": ctypes.c_short,
+                "unsigned short": ctypes.c_ushort, "long long": ctypes.c_longlong, "unsigned long long": ctypes.c_ulonglong,
+                "unsigned char": ctypes.c_ubyte, "signed char": ctypes.c_byte}
+        cls2struct = {}
+        field2member = {}
+        for cls_, cs_, pf, cm in job["name_pairs"]:
+            cls2struct[cls_] = cs_
+            field2member.setdefault(cls_, []).append((pf, cm))
+
+        def badc(prop, member, detail):
+            out["mismatch"].append({"what": "callback-args", "struct": prop, "member": member, "detail": detail})
+
+        raw_types = {}
+        def raw_struct(name):
+            sz, al = job["csize"][name]
+            if sz <= 16:
+                raise ValueError("struct %s is %d bytes: by-value classification not modelled" % (name, sz))
+            if name not in raw_types:
+                el = {1: ctypes.c_ubyte, 2: ctypes.c_ushort, 4: ctypes.c_uint, 8: ctypes.c_ulonglong}[al]
+                raw_types[name] = type("Raw_" + name, (ctypes.Structure,), {"_fields_": [("b", el * (sz // al))]})
+            return raw_types[name]
+
+        def leaves(name, base=0, path=()):
+            """(path, offset, ctype) of every scalar leaf of C struct `name`"""
+            res = []
+            for m_, t in CT[name].items():
+                o = co[name][m_][0] + base
+                if t[0] == "struct":
+                    res += leaves(t[1], o, path + (m_,))
+                elif t[0] in ("prim", "enum", "ptr"):
+                    res.append((path + (m_,), o, t))
+                elif t[0] == "arr" and t[2][0] == "prim":
+                    for k_ in range(t[1]):
+                        res.append((path + (m_, k_), o + k_ * ctypes.sizeof(PRIM[t[2][1]]), t[2]))
+            return res
+
+        def sentinel(t, idx):
+            if t[0] == "prim":
+                n_ = t[1]
+                if n_ in ("double", "float"): return 1.5 + idx * 0.25
+                if n_.startswith("unsigned"): return (1 << (8 * ctypes.sizeof(PRIM[n_]) - 1)) + 1 + idx
+                return -7 - idx
+            if t[0] == "enum": return 3 + idx
+            raise ValueError(t)
+
+        def py_leaf(obj, cls_, path):
+            """read the leaf `path` (C member names) from python object obj of class cls_"""
+            cur = obj; ccls = cls_
+            for el in path:
+                if isinstance(el, int):
+                    cur = cur[el]; continue
+                pf = [a for a, b in field2member.get(ccls, []) if b == el]
+                if not pf:
+                    raise KeyError("class %s has no field for C member %s" % (ccls, el))
+                cur = getattr(cur, pf[0])
+                ccls = type(cur).__name__
+            return cur
+
+        s_ = mk()
+        ode = s_.create_ode(length=3, needs_nbody=False)
+        inst = {"Simulation": s_, "IntegratorMercurius": s_.ri_mercurius, "IntegratorTRACE": s_.ri_trace, "ODE": ode}
+        keep = []
+        for cls_, prop, field in job["callback_props"]:
+            out["checked"]["callback_args"] += 1
+            if cls_ not in inst:
+                badc(prop, field, "no live instance of class %s to probe" % cls_); continue
+            obj = inst[cls_]
+            cs_ = cls2struct[cls_]
+            cm = [b for a, b in field2member[cls_] if a == field][0]
+            ct = CT[cs_][cm]
+            if ct[0] != "ptr" or ct[1][0] != "fun":
+                badc(prop, field, "C member %s.%s is not a function pointer" % (cs_, cm)); continue
+            _, ret, params, variadic = ct[1]
+            got = []
+            retv = None if ret[0] == "void" else (0.625 if ret[1] in ("double", "float") else 5)
+            def cb(*a, _g=got, _r=retv):
+                _g.append(a)
+                return _r
+            try:
+                setattr(obj, prop, cb)
+            except Exception as e:
+                badc(prop, field, "setting %s.%s to a python function raised %r" % (cls_, prop, e)); continue
+            rawp = ctypes.c_void_p.from_address(ctypes.addressof(obj) + co[cs_][cm][0]).value
+            if not rawp:
+                badc(prop, field, "%s.%s = f left NULL in C member %s.%s" % (cls_, prop, cs_, cm)); continue
+            # C-side prototype and arguments
+            cargs = []; expect = []; ok_proto = True
+            for idx, pt in enumerate(params):
+                if pt[0] == "prim":
+                    v = sentinel(pt, idx); cargs.append(PRIM[pt[1]]); expect.append(("val", v, pt))
+                elif pt[0] == "ptr" and pt[1][0] == "struct":
+                    sn = pt[1][1]
+                    if sn == "reb_simulation":
+                        addr_ = ctypes.addressof(s_)
+                    else:
+                        bufp = (ctypes.c_ubyte * (job["csize"][sn][0] + 16))(); keep.append(bufp); addr_ = ctypes.addressof(bufp)
+                    cargs.append(ctypes.c_void_p); expect.append(("sptr", addr_, sn))
+                elif pt[0] == "ptr" and pt[1][0] == "prim" and pt[1][1] == "double":
+                    arr = (ctypes.c_double * 4)(2.5 + idx, 3.5, 4.5, 5.5); keep.append(arr)
+                    cargs.append(ctypes.c_void_p); expect.append(("dptr", ctypes.addressof(arr), 2.5 + idx))
+                elif pt[0] == "struct":
+                    RT = raw_struct(pt[1]); rv = RT(); lv = leaves(pt[1]); vals_ = {}
+                    for li, (path, o, t) in enumerate(lv):
+                        v = sentinel(t, li)
+                        cty = PRIM[t[1]] if t[0] == "prim" else ctypes.c_int
+                        cty.from_address(ctypes.addressof(rv) + o).value = v
+                        vals_[path] = v
+                    cargs.append(RT); expect.append(("struct", rv, (pt[1], vals_)))
+                else:
+                    ok_proto = False
+            if not ok_proto or variadic:
+                badc(prop, field, "C prototype of %s.%s has a parameter kind the probe cannot build" % (cs_, cm)); continue
+            rty = None if ret[0] == "void" else PRIM[ret[1]]
+            fn = ctypes.CFUNCTYPE(rty, *cargs)(rawp)
+            try:
+                rv_ = fn(*[e[1] for e in expect])
+                if rv_ != retv:
+                    badc(prop, field, "python callable returns %r; C (return type %s) receives %r" % (retv, ret[1] if ret[0] != "void" else "void", rv_))
+            except Exception as e:
+                badc(prop, field, "calling the stored pointer with the C prototype raised %r" % (e,)); continue
+            if len(got) != 1 or len(got[0]) != len(expect):
+                badc(prop, field, "python callable received %s, C passes %d argument(s)" % (got and len(got[0]), len(expect))); continue
+            for idx, (e, a) in enumerate(zip(expect, got[0])):
+                try:
+                    if e[0] == "val":
+                        if a != e[1]:
+                            badc(prop, field, "argument %d: C passes %r (%s), python receives %r" % (idx, e[1], e[2][1], a))
+                    elif e[0] == "sptr":
+                        k_ = type(a.contents).__name__
+                        if ctypes.addressof(a.contents) != e[1] or cls2struct.get(k_) != e[2]:
+                            badc(prop, field, "argument %d: C passes struct %s* %#x, python receives POINTER(%s) to %#x" % (idx, e[2], e[1], k_, ctypes.addressof(a.contents)))
+                    elif e[0] == "dptr":
+                        if ctypes.addressof(a.contents) != e[1] or a[0] != e[2]:
+                            badc(prop, field, "argument %d: C passes double* %#x -> %r, python sees %#x -> %r" % (idx, e[1], e[2], ctypes.addressof(a.contents), a[0]))
+                    elif e[0] == "struct":
+                        sn, vals_ = e[2]
+                        k_ = type(a).__name__
+                        if cls2struct.get(k_) != sn:
+                            badc(prop, field, "argument %d: C passes struct %s by value, python receives %s" % (idx, sn, k_)); continue
+                        for path, v in vals_.items():
+                            out["checked"]["callback_args"] += 1
+                            pv = py_leaf(a, k_, path)
+                            if pv != v:
+                                badc(prop, field, "argument %d (struct %s by value): C member %s = %r, python reads %r" % (idx, sn, ".".join(map(str, path)), v, pv))
+                except Exception as ex:
+                    badc(prop, field, "argument %d could not be compared: %r" % (idx, ex))
+        del inst, ode, s_
+
+        # (b) triggered by the library
+        seen = {}
+        s_ = mk(); s_.integrator = "whfast"; s_.dt = 0.01
+        sa_ = ctypes.addressof(s_)
+        def mkcb(name):
+            def f(simp):
+                seen.setdefault(name, []).append((ctypes.addressof(simp.contents), simp.contents.t, simp.contents.N))
+            return f
+        for nm in ("heartbeat", "additional_forces", "pre_timestep_modifications", "post_timestep_modifications"):
+            setattr(s_, nm, mkcb(nm))
+        s_.integrate(0.025)          # the heartbeat is only called from integrate()
+        for nm in ("heartbeat", "additional_forces", "pre_timestep_modifications", "post_timestep_modifications"):
+            out["checked"]["callback_args"] += 1
+            if nm not in seen:
+                badc(nm, "_" + nm, "integrate() over three steps did not trigger the callback")
+            elif any(a != sa_ or n_ != 3 for a, t_, n_ in seen[nm]):
+                badc(nm, "_" + nm, "triggered with sim at %s N=%s, live simulation is at %#x with N=3" % ([hex(a) for a, _, _ in seen[nm]][:2], [n_ for _, _, n_ in seen[nm]][:2], sa_))
+        # collision through a ghost box: periodic boundary, two particles overlapping only across the x edge
+        s_ = rebound.Simulation()
+        s_.configure_box(10.)
+        s_.boundary = "periodic"; s_.N_ghost_x = 1; s_.N_ghost_y = 0; s_.N_ghost_z = 0
+        s_.integrator = "leapfrog"; s_.gravity = "none"; s_.collision = "direct"; s_.dt = 1e-3
+        s_.add(m=1., r=0.3, x=-4.9, vx=-1.); s_.add(m=1., r=0.3, x=4.9, vx=1.)
+        sa_ = ctypes.addressof(s_)
+        col = []; cor = []
+        def resolve(simp, c):
+            col.append((ctypes.addressof(simp.contents), c.p1, c.p2, c.gb.x, c.gb.y, c.gb.z, c.gb.vx, c.gb.vy, c.gb.vz, c.ri))
+            return 0
+        s_.collision_resolve = resolve
+        s_.step()
+        out["checked"]["callback_args"] += 1
+        if not col:
+            badc("collision_resolve", "_collision_resolve", "ghost-box collision did not trigger the python resolver")
+        else:
+            a, p1, p2, gx, gy, gz, gvx, gvy, gvz, ri = col[0]
+            if a != sa_ or {p1, p2} != {0, 1} or abs(gx) != 10.0 or (gy, gz, gvx, gvy, gvz) != (0., 0., 0., 0., 0.):
+                # (ri is only assigned by the tree search; the direct search leaves it uninitialised, so it is not compared here:
+                #  its marshalling is covered by the by-value call with the C prototype above)
+                badc("collision_resolve", "_collision_resolve", "ghost-box collision (boxsize 10, periodic in x): resolver received sim=%#x p1=%d p2=%d gb=(%r,%r,%r,%r,%r,%r) ri=%d; expected sim=%#x, {p1,p2}={0,1}, gb=(+-10,0,0,0,0,0)" % (a, p1, p2, gx, gy, gz, gvx, gvy, gvz, ri, sa_))
+        s_ = rebound.Simulation()
+        s_.integrator = "leapfrog"; s_.gravity = "none"; s_.collision = "direct"; s_.dt = 1e-3
+        s_.add(m=1., r=0.3, x=-0.29, vx=0.75); s_.add(m=1., r=0.3, x=0.29, vx=-0.5)
+        sa_ = ctypes.addressof(s_)
+        def corf(simp, v):
+            cor.append((ctypes.addressof(simp.contents), v)); return 0.5
+        s_.collision_resolve = "hardsphere"; s_.coefficient_of_restitution = corf
+        s_.step()
+        out["checked"]["callback_args"] += 1
+        if not cor:
+            badc("coefficient_of_restitution", "_coefficient_of_restitution", "hard-sphere collision did not trigger the callback")
+        elif cor[0][0] != sa_ or abs(abs(cor[0][1]) - 1.25) > 1e-12:
+            badc("coefficient_of_restitution", "_coefficient_of_restitution", "head-on collision with relative speed 1.25: callback received sim=%#x v=%r (live sim %#x)" % (cor[0][0], cor[0][1], sa_))
+        # ODE derivatives through the BS integrator
+        s_ = mk(); s_.integrator = "BS"
+        ode = s_.create_ode(length=2, needs_nbody=False)
+        ode.y[0] = 1.25; ode.y[1] = -0.5
+        oa = ctypes.addressof(ode); ya = ctypes.cast(ode.y, ctypes.c_void_p).value
+        od = []
+        def der(odep, yDot, y, t):
+            od.append((ctypes.addressof(odep.contents), y[0], y[1], t, odep.contents.length))
+            yDot[0] = 0.; yDot[1] = 0.
+        ode.derivatives = der
+        s_.dt = 1e-3; s_.step()
+        out["checked"]["callback_args"] += 1
+        if not od:
+            badc("derivatives", "_derivatives", "a BS step did not call the ODE right-hand side")
+        elif any(a != oa or ln != 2 or y0 != 1.25 or y1 != -0.5 or not (0. <= t_ <= 1.) for a, y0, y1, t_, ln in od):
+            badc("derivatives", "_derivatives", "right-hand side called with (ode, y0, y1, t, length)=%r; ode is at %#x with y=(1.25,-0.5), length 2" % (od[0], oa))
+        # free_particle_ap on remove
+        s_ = mk(); fp = []
+        def fpa(pp):
+            fp.append((ctypes.addressof(pp.contents), pp.contents.m, pp.contents.ap))
+        s_.free_particle_ap = fpa
+        s_.particles[2].ap = 0x1234
+        want_addr = ctypes.addressof(s_.particles[2]); want_m = s_.particles[2].m
+        s_.remove(2)
+        out["checked"]["callback_args"] += 1
+        if not fp:
+            badc("free_particle_ap", "_free_particle_ap", "removing a particle with ap set did not trigger the callback")
+        elif fp[0] != (want_addr, want_m, 0x1234):
+            badc("free_particle_ap", "_free_particle_ap", "callback received (addr, m, ap)=%r, removed particle was (%#x, %r, 0x1234)" % (fp[0], want_addr, want_m))
+        # mercurius L and trace S / S_peri
+        for integ, obj_name, props_ in (("mercurius", "ri_mercurius", ("L",)), ("trace", "ri_trace", ("S", "S_peri"))):
+            s_ = mk(); s_.integrator = integ; s_.dt = 0.05
+            sa_ = ctypes.addressof(s_); rec = {}
+            def mk2(nm, dflt):
+                def f(simp, *a):
+                    rec.setdefault(nm, []).append((ctypes.addressof(simp.contents),) + a); return dflt
+                return f
+            for pr_ in props_:
+                setattr(getattr(s_, obj_name), pr_, mk2(pr_, 1.0 if pr_ == "L" else 0))
+            s_.step()
+            for pr_ in props_:
+                out["checked"]["callback_args"] += 1
+                if pr_ not in rec:
+                    badc(pr_, "_" + pr_, "a %s step did not call the python %s" % (integ, pr_))
+                else:
+                    for r_ in rec[pr_][:50]:
+                        ok_ = r_[0] == sa_ and ((pr_ == "L" and len(r_) == 3 and r_[1] > 0 and r_[2] > 0) or
+                                               (pr_ == "S" and len(r_) == 3 and 0 <= r_[1] < 3 and 0 <= r_[2] < 3 and r_[1] != r_[2]) or
+                                               (pr_ == "S_peri" and len(r_) == 2 and 0 <= r_[1] < 3))
+                        if not ok_:
+                            badc(pr_, "_" + pr_, "%s called with %r; live sim at %#x, 3 particles" % (pr_, r_, sa_)); break
+    except Exception as e:
+        import traceback
+        out["mismatch"].append({"what": "callback-args", "struct": "probe", "member": "", "detail": "callback probe raised %r %s" % (e, traceback.format_exc()[-400:])})
 
     # ---- 4. symbols resolve in the loaded library
     for mod, sym in job["symbols"]:
